@@ -192,6 +192,7 @@ pub fn hex_short(bytes: &[u8]) -> String {
 thread_local! {
     static LAST_PANIC: RefCell<Option<(String, String)>> = RefCell::new(None);
     static QUIET: RefCell<bool> = RefCell::new(false);
+    static UNWINDING: std::cell::Cell<u32> = std::cell::Cell::new(0);
 }
 
 #[derive(Clone, Debug)]
@@ -225,6 +226,45 @@ pub fn install_panic_hook() {
             .unwrap_or_default();
         let msg = payload_to_string(info.payload());
         let quiet = QUIET.with(|q| *q.borrow());
+        let first = LAST_PANIC.with(|p| p.borrow().clone());
+        let depth = UNWINDING.with(|d| {
+            let n = d.get();
+            d.set(n + 1);
+            n
+        });
+        if quiet && depth >= 1 {
+            // A second panic while the first one is still unwinding inside one
+            // `catch`: the runtime aborts the process right after this hook.
+            // When the code under test is involved this is recorded as a
+            // violation (with phase and case for replay) instead of a dead shard.
+            let (fmsg, floc) = first.clone().unwrap_or_default();
+            if loc.starts_with("/repo/") || floc.starts_with("/repo/") {
+                let info = WD_INFO.lock().ok().and_then(|g| g.clone());
+                if let Some(wi) = info {
+                    let case = WD_CASE.load(Ordering::SeqCst);
+                    let mut replay = wi.base.clone();
+                    replay["phase"] = json!(wi.phase);
+                    replay["case"] = json!(case);
+                    let file = |l: &str| l.split(':').next().unwrap_or("").trim_start_matches("/repo/").rsplit("/registry/src/").next().unwrap_or("").to_string();
+                    let v = json!({
+                        "property": wi.property,
+                        "uncaught_panic": true,
+                        "violations": [{
+                            "signature": format!("{}|abort|panic while unwinding in phase {}|first={}|in={}|second={}|in={}", wi.property, wi.phase, strip_numbers(&fmsg), file(&floc), strip_numbers(&msg), file(&loc)),
+                            "clause": "abort",
+                            "detail": {"first_message": fmsg, "first_location": floc, "second_message": msg, "second_location": loc, "phase": wi.phase, "case": case},
+                            "replay": replay,
+                            "count": 1,
+                        }],
+                    });
+                    let _ = std::fs::write(&wi.out, to_json(&v));
+                    eprintln!("panic while unwinding in the code under test: first {} at {}; then {} at {}", fmsg, floc, msg, loc);
+                    std::process::exit(0);
+                }
+            }
+            default(info);
+            return;
+        }
         LAST_PANIC.with(|p| *p.borrow_mut() = Some((msg.clone(), loc.clone())));
         if !quiet {
             // Safety net: a panic of the code under test that escaped every
@@ -290,10 +330,12 @@ pub fn strip_numbers(s: &str) -> String {
 /// would leave inconsistent; callers treat the objects touched by `f` as
 /// poisoned afterwards.
 pub fn catch<R, F: FnOnce() -> R>(f: F) -> Result<R, Panicked> {
-    QUIET.with(|q| *q.borrow_mut() = true);
+    let was_quiet = QUIET.with(|q| std::mem::replace(&mut *q.borrow_mut(), true));
     LAST_PANIC.with(|p| *p.borrow_mut() = None);
+    UNWINDING.with(|d| d.set(0));
     let r = panic::catch_unwind(panic::AssertUnwindSafe(f));
-    QUIET.with(|q| *q.borrow_mut() = false);
+    UNWINDING.with(|d| d.set(0));
+    QUIET.with(|q| *q.borrow_mut() = was_quiet);
     match r {
         Ok(v) => Ok(v),
         Err(payload) => {
